@@ -97,6 +97,8 @@ struct RadixStep_CE0
             {
                 while (i < 256 && bkt_size[i] == 0)
                     ++i;
+                if (i >= 256)
+                    break;
                 bkt += bkt_size[i];
                 if (bkt >= size)
                     break;
@@ -250,6 +252,8 @@ struct RadixStep_CE2
             {
                 while (i < 256 && bkt_size[i] == 0)
                     ++i;
+                if (i >= 256)
+                    break;
                 bkt += bkt_size[i];
                 if (bkt >= size)
                     break;
@@ -622,6 +626,8 @@ struct RadixStep_CI2
             {
                 while (i < 256 && bkt_size[i] == 0)
                     ++i;
+                if (i >= 256)
+                    break;
                 lbkt += bkt_size[i];
                 if (lbkt >= size)
                     break;
